@@ -117,3 +117,31 @@ theorem ascent_reaches_a_root {α : Type*} [Finite α] (w : α → ℝ) (f : α 
       refine ⟨k + 1, ?_⟩
       rw [Function.iterate_succ_apply]
       exact hk
+
+section PartialIsometry
+open Matrix
+/-- C18: a partial isometry never increases the norm of a row vector: if Ω Ωᵀ Ω = Ω then ‖x Ω‖² ≤ ‖x‖². -/
+theorem partial_isometry_norm_le {m n : ℕ} (Om : Matrix (Fin m) (Fin n) ℝ) (h : Om * Omᵀ * Om = Om) (x : Fin m → ℝ) :
+    (x ᵥ* Om) ⬝ᵥ (x ᵥ* Om) ≤ x ⬝ᵥ x := by
+  set P : Matrix (Fin m) (Fin m) ℝ := Om * Omᵀ with hP
+  have hPP : P * P = P := by
+    rw [hP, ← Matrix.mul_assoc, h]
+  have hPt : Pᵀ = P := by
+    rw [hP, Matrix.transpose_mul, Matrix.transpose_transpose]
+  set y : Fin m → ℝ := x ᵥ* P with hy
+  -- ‖xΩ‖² = (x Ω Ωᵀ) · x = y · x
+  have h1 : (x ᵥ* Om) ⬝ᵥ (x ᵥ* Om) = y ⬝ᵥ x := by
+    have : (x ᵥ* Om) ⬝ᵥ (x ᵥ* Om) = (x ᵥ* Om) ⬝ᵥ (Omᵀ *ᵥ x) := by rw [Matrix.mulVec_transpose]
+    rw [this, Matrix.dotProduct_mulVec, Matrix.vecMul_vecMul]
+  -- y · y = y · x   (P symmetric idempotent)
+  have h2 : y ⬝ᵥ y = y ⬝ᵥ x := by
+    have : y ⬝ᵥ y = y ⬝ᵥ (Pᵀ *ᵥ x) := by rw [Matrix.mulVec_transpose]
+    rw [this, Matrix.dotProduct_mulVec, hy, Matrix.vecMul_vecMul, hPt, hPP]
+  have h3 : 0 ≤ (x - y) ⬝ᵥ (x - y) := by
+    unfold dotProduct
+    exact Finset.sum_nonneg (fun i _ => mul_self_nonneg _)
+  have h4 : (x - y) ⬝ᵥ (x - y) = x ⬝ᵥ x - y ⬝ᵥ x := by
+    rw [sub_dotProduct, dotProduct_sub, dotProduct_sub, h2, dotProduct_comm x y]
+    ring
+  rw [h1]; linarith
+end PartialIsometry
